@@ -103,9 +103,9 @@ class _Future:
 
     def run(self):
         # the worker unpickles its task, runs it, and the result travels back pickled
-        f, e = pickle.loads(self.payload)
+        f, a, k = pickle.loads(self.payload)
         try:
-            self._result = pickle.dumps(f(e))
+            self._result = pickle.dumps(f(*a, **k))
         except BaseException as exc:  # noqa: BLE001
             self._exc = exc
         self.done = True
@@ -130,8 +130,8 @@ class VirtualExecutor:
     def __exit__(self, *a):
         return False
 
-    def submit(self, f, e):
-        fut = _Future(pickle.dumps((f, e)), len(self.futures))
+    def submit(self, f, *args, **kwargs):
+        fut = _Future(pickle.dumps((f, args, kwargs)), len(self.futures))
         self.futures.append(fut)
         return fut
 
@@ -276,6 +276,10 @@ def run_once(ids, vectors, store_kind, sched, base):
         try:
             if sched is None:
                 app.apply_to(members, logger=False, show_progress=False)
+            elif sched and sched[0] == "chunksize":
+                # the chunking setting the API accepts; completion order = submission order of whatever tasks are made
+                with patched_pool(()) as pp:
+                    app.apply_to(members, parallel=True, par_kw={"max_workers": 2, "chunksize": sched[1]}, logger=False, show_progress=False)
             else:
                 with patched_pool(sched) as pp:
                     app.apply_to(members, parallel=True, par_kw={"max_workers": 2}, logger=False, show_progress=False)
@@ -307,7 +311,7 @@ def single_reference(i, base):
 def judge(ids, vectors, store_kind, sched, res, refs):
     """returns list of (sig, detail)"""
     fails = []
-    mode = "serial" if sched is None else "parallel"
+    mode = "serial" if sched is None else ("parallel, chunksize given" if sched[0] == "chunksize" else "parallel")
     classes = sorted({v.get(i, "ok") for v in vectors for i in ids} - {"ok"})
     cls = f"{store_kind} store, {mode}, {len(vectors)} generic step(s)"
     if res["raised"]:
@@ -373,6 +377,9 @@ def explore(spec, acc):
         for o in admissible_orders(len(ids), w):
             if o not in scheds:
                 scheds.append(o)
+    for cs in (2, 3):
+        if len(ids) > 1:
+            scheds.append(("chunksize", cs))
     vec_space = list(itertools.product(OUTCOMES, repeat=len(ids)))
     if nsteps == 2:
         # step 2 only sees records step 1 passed: enumerate step-2 outcomes for those
@@ -396,7 +403,7 @@ def explore(spec, acc):
                 res = run_once(ids, vectors, store_kind, sched, base)
                 acc.transitions += len(ids)
                 acc.traces += 1
-                if sched is not None and res["log"] and tuple(res["log"]) != tuple(sched) and not res["raised"]:
+                if sched is not None and sched[0] != "chunksize" and res["log"] and tuple(res["log"]) != tuple(sched) and not res["raised"]:
                     acc.fail("harness: virtual executor did not follow the schedule", case, {"log": res["log"]})
                 for sig, detail in judge(ids, vectors, store_kind, sched, res, refs):
                     acc.fail(sig, case, detail)
@@ -560,7 +567,7 @@ def replay(case):
         return [(s, r["cases"][0]["detail"]) for s, r in acc.failures.items()]
     ids, vectors, store = case["ids"], case["vectors"], case["store"]
     refs = {i: single_reference(i, base) for i in ids}
-    sched = tuple(case["schedule"]) if case.get("schedule") is not None else None
+    sched = tuple(case["schedule"]) if case.get("schedule") is not None else None  # ("chunksize", n) survives as a tuple
     res = run_once(ids, vectors, store, sched, base)
     fails = judge(ids, vectors, store, sched, res, refs)
     if "compare_with" in case:
